@@ -288,6 +288,66 @@ pub fn run(ctx: &Ctx) -> i32 {
             ev.distinct_extra += ev.evaluations - before;
             ev.count("fsts:deep-random");
         }
+        // part 2b: wide nodes (with and without index table) where the bound diverges AT the wide node: every child
+        // byte's neighbours, 0x00, 0xfe, 0xff, and one-byte extensions of them
+        for (wi, &fo) in [2usize, 31, 32, 33, 64, 200, 255, 256].iter().enumerate() {
+            for depth in 0..2usize {
+                for variant in 0..2usize {
+                    let idx = (wi * 2 + depth) * 2 + variant;
+                    if idx % n != shard {
+                        continue;
+                    }
+                    let mut r = Rng::new(ctx.seed, 0x31de + idx as u64);
+                    let mut keys = gen::fanout_keys(fo, depth, variant == 1, true, &mut r);
+                    // make sure the extreme bytes occur as children in some of the cases
+                    if variant == 1 && fo < 256 {
+                        let prefix: Vec<u8> = keys.iter().find(|k| k.len() > depth).map(|k| k[..depth].to_vec()).unwrap_or_default();
+                        for b in [0x00u8, 0xff].iter() {
+                            let mut k = prefix.clone();
+                            k.push(*b);
+                            keys.push(k);
+                        }
+                        keys.sort();
+                        keys.dedup();
+                    }
+                    let kv = gen::assign(keys, [1usize, 5, 4][idx % 3], &mut r);
+                    let bytes = match guard(|| build::build(Front::MapInsert, &kv)) {
+                        Ok(Ok(b)) => b,
+                        _ => {
+                            ev.violate("build-error", "cannot build".into(), J::Null);
+                            continue;
+                        }
+                    };
+                    let prefix: Vec<u8> = kv.iter().find(|(k, _)| k.len() > depth).map(|(k, _)| k[..depth].to_vec()).unwrap_or_default();
+                    let mut bs: Vec<u8> = vec![0x00, 0x01, 0x7f, 0x80, 0xfd, 0xfe, 0xff];
+                    for _ in 0..10 {
+                        let (k, _) = &kv[r.usize(kv.len())];
+                        if k.len() > depth {
+                            bs.push(k[depth]);
+                            bs.push(k[depth].wrapping_add(1));
+                            bs.push(k[depth].wrapping_sub(1));
+                        }
+                    }
+                    bs.sort();
+                    bs.dedup();
+                    let mut bounds: Vec<Vec<u8>> = vec![vec![], prefix.clone()];
+                    for b in bs {
+                        let mut x = prefix.clone();
+                        x.push(b);
+                        bounds.push(x.clone());
+                        x.push(if b % 2 == 0 { 0x00 } else { b'x' });
+                        bounds.push(x);
+                    }
+                    bounds.sort();
+                    bounds.dedup();
+                    ev.fps.insert(crate::rng::fnv_u64(0x31de, idx as u64));
+                    let before = ev.evaluations;
+                    all_queries(&bytes, &kv, &bounds, false, &mut r, ev, &mut hooks);
+                    ev.distinct_extra += ev.evaluations - before;
+                    ev.count("fsts:wide-nodes");
+                }
+            }
+        }
         // part 3: corpus with bounds from keys
         if shard < 2 {
             let name = ["words-10000", "wiki-urls-10000"][shard];
@@ -321,7 +381,7 @@ pub fn run(ctx: &Ctx) -> i32 {
         ev,
         Spec {
             level: "exploration",
-            rule: "one evaluation = one range query (lower in {none,ge,gt} x upper in {none,le,lt} x bound strings) whose full output (keys, values, order, termination) is compared with the model filter, through raw search_with_state (hook H3 checks stack/key-buffer lock step after construction and after every next(); a breach is attached as diagnosis to an output violation and otherwise only recorded) and one of Fst::range / Map::range / Set::range; FSTs: subsets of {a,b}^<=3 (quick: all subsets with <=4 keys + every 10th other; thorough: all 32768) with all pairs of bounds from {a,b}^<=3 + k.00, k.ff, last byte +-1, absent 4-byte strings; deep random maps over 3 symbols (incl. 00/7f/ff) with bounds = keys, prefixes, +-1 mutations, extensions; two corpora; repeated-bound settings; non-trivial = every query; distinct = (FST, query) pairs, distinct by construction",
+            rule: "one evaluation = one range query (lower in {none,ge,gt} x upper in {none,le,lt} x bound strings) whose full output (keys, values, order, termination) is compared with the model filter, through raw search_with_state (hook H3 checks stack/key-buffer lock step after construction and after every next(); a breach is attached as diagnosis to an output violation and otherwise only recorded) and one of Fst::range / Map::range / Set::range; FSTs: subsets of {a,b}^<=3 (quick: all subsets with <=4 keys + every 10th other; thorough: all 32768) with all pairs of bounds from {a,b}^<=3 + k.00, k.ff, last byte +-1, absent 4-byte strings; deep random maps over 3 symbols (incl. 00/7f/ff) with bounds = keys, prefixes, +-1 mutations, extensions; nodes of fan-out {2,31,32,33,64,200,255,256} at depth 0 and 1 with bounds that diverge at the wide node (child bytes +-1, 00, fe, ff, and extensions); two corpora; repeated-bound settings; non-trivial = every query; distinct = (FST, query) pairs, distinct by construction",
             assumptions: vec!["bound classes (lo:*, hi:*) are decided from the inputs alone".into(), "hook H3 (verif_frames) is a read-only view; hook:* counts are recorded only".into()],
             floors,
             exhaustive: Some(!quick),
